@@ -390,6 +390,8 @@ def gen_on_wall(inp, i):
         return False
     g = inp.ngens[i]
     for ax in range(inp.dim):
-        if g[ax] == inp.na[ax] or g[ax] == inp.na[ax] + inp.nw[ax]:
+        # the upper wall sits at the float sum anchor + width (that is what the boundary planes are built from)
+        up = Fraction(float(inp.na[ax]) + float(inp.nw[ax]))
+        if g[ax] == inp.na[ax] or g[ax] == inp.na[ax] + inp.nw[ax] or g[ax] == up:
             return True
     return False
